@@ -124,6 +124,8 @@ func streamBytes(seed byte, off, n int) []byte {
 
 func pollDataPayload(c gwc.Conn, want int, d time.Duration) (payload []byte, perr error, ended bool) {
 	deadline := time.Now().Add(d)
+	// the payload cannot be complete before that many bytes have arrived at all: wait for that first (cheap), decode after
+	c.WaitBytes(want, d)
 	for {
 		payload = payload[:0]
 		var pkts [][]byte
